@@ -97,7 +97,7 @@ def view (s : St) (w : Writer) : View :=
         | none => (f.lines, none)
         | some k =>
           let a := wholeLines f.lines k
-          match tornItem f.lines k, parseLine (dropCR (fragment f.lines k)) with
+          match tornItem f.lines k, (tornParse (fragment f.lines k)).head? with
           | some orig, some it' => if it' = orig then (a ++ [orig], none) else (a, some it')
           | _, _ => (a, none)
       let ents := match s.cutI with
